@@ -280,11 +280,21 @@ def redialm(prop, tier, verdict, sample_quick, only=None):
         if ev in ('CallDone', 'FreshCall'):
             what += ':code=%s' % line.get('code')
         return 'redialm:%s/kind=%s,loss=%s,park=%s,wpark=%s,during=%s,after=%s' % (what, s.get('kind'), s.get('loss'), s.get('park'), s.get('wpark'), '+'.join(s.get('during') or []) or '-', s.get('after'))
+    DIRECTED = ('stalereader', 'latecancel', 'earlyreply')
     def sel(allc, rnd, tier):
-        pool = [c for c in allc if only is None or only(c)]
+        directed = [c for c in allc if c.get('kind') in DIRECTED]
+        pool = [c for c in allc if c.get('kind') not in DIRECTED and (only is None or only(c))]
         if tier == 'thorough' or len(pool) <= sample_quick:
-            return pool
-        return rnd.sample(pool, sample_quick)
+            return directed + pool
+        # stratified: one scenario of every (kind, loss, park, caller parked, calls, Close) combination first, the rest at random
+        strata = {}
+        for c in pool:
+            d = c.get('during') or []
+            strata.setdefault((c.get('kind'), c.get('loss'), c.get('park'), c.get('wpark') != 'none', 'call' in d, 'close' in d), []).append(c)
+        picked = [rnd.choice(v) for _, v in sorted(strata.items(), key=lambda kv: str(kv[0]))]
+        rest = [c for c in pool if c not in picked]
+        extra = rnd.sample(rest, max(0, min(len(rest), sample_quick - len(picked))))
+        return directed + picked + extra
     cov, _ = eng_generic.run(prop, tier, verdict, 'RedialSched', 'redialm', 'PRedialM', cl, mc_cfg='RedialSched_mc.cfg', min_count=800, select=sel,
                              nontrivial=lambda s: s.get('park') != 'none' or s.get('wpark') != 'none' or len(s.get('during') or []) > 0,
                              repeats=2 if tier == 'thorough' else 1, label='redialm')
